@@ -1,0 +1,20 @@
+//go:build verif
+
+package admin
+
+// Contracts for govc (see /verif/DESIGN.md). Comments only; compiled only with -tags verif.
+
+//@ func BearerTokenAuthorizer
+//@   modifies lastAllowed
+//@   sets lastAllowed := local(allowed)
+//@   loop 1 invariant [bounds] rangeindex < len(tokens)
+//@   loop 1 invariant [only_nonempty_inputs] forall k int :: 0 <= k && k < len(allowed) ==> len(allowed[k]) > 0 && (exists j int :: 0 <= j && j <= rangeindex && tokens[j] == allowed[k])
+//@   loop 1 invariant [all_nonempty_inputs] forall j int :: 0 <= j && j <= rangeindex && len(tokens[j]) > 0 ==> tokenListed(allowed, tokens[j])
+//@   ensures [C11:allowlist_is_exactly_the_nonempty_tokens] (forall k int :: 0 <= k && k < len(lastAllowed) ==> len(lastAllowed[k]) > 0 && (exists j int :: 0 <= j && j < len(tokens) && tokens[j] == lastAllowed[k])) && (forall j int :: 0 <= j && j < len(tokens) && len(tokens[j]) > 0 ==> tokenListed(lastAllowed, tokens[j]))
+
+//@ func BearerTokenAuthorizer$1
+//@   requires r != nil && r.Header != nil
+//@   loop 1 invariant [none_before] forall j int :: 0 <= j && j <= rangeindex ==> allowed[j] != gb
+//@   ensures [C11:open_only_without_tokens] len(allowed) == 0 ==> result
+//@   ensures [C11:accept_implies_listed_token] len(allowed) > 0 && result ==> bearerWellFormed(headerGet(r.Header, "Authorization")) && tokenListed(allowed, bearerToken(headerGet(r.Header, "Authorization")))
+//@   ensures [C11:listed_token_accepted] len(allowed) > 0 && bearerWellFormed(headerGet(r.Header, "Authorization")) && tokenListed(allowed, bearerToken(headerGet(r.Header, "Authorization"))) ==> result
